@@ -66,6 +66,49 @@ def check_sign(case, ctx):
     require(st_ == "ok" and ok is True, "sign/own_sig_rejected", f"{st_} {ok!r}")
 
 
+def history_strategy(tier):
+    """one PrivateKey / S256Point object used for a whole sequence of sign and verify calls"""
+    op = st.tuples(st.sampled_from(["sign", "sign", "verify_own", "verify_other"]), st.integers(0, 2),
+                   st.integers(0, 3))
+    return st.fixed_dictionaries({
+        "secret": gen.secrets(),
+        "msgs": st.tuples(gen.rand_bytes(32), gen.rand_bytes(32), gen.b32()),
+        "auxs": st.tuples(st.none(), st.just(bytes(32)), gen.rand_bytes(32), gen.rand_bytes(32)),
+        "ops": st.lists(op, min_size=2, max_size=6),
+    })
+
+
+def check_history(case, ctx):
+    d = case["secret"]
+    priv = PrivateKey(d)
+    pk = ec.xonly(ec.mul(d))
+    point = S256Point.parse_xonly(pk)
+    seen = {}
+    repeated = False
+    for kind, mi, ai in case["ops"]:
+        msg, aux = case["msgs"][mi], case["auxs"][ai]
+        aux_eff = bytes(32) if aux is None else aux
+        want = ec.schnorr_sign(d, msg, aux_eff)
+        if kind == "sign":
+            if mi in seen and seen[mi] != aux_eff:
+                repeated = True
+            seen.setdefault(mi, aux_eff)
+            got = priv.sign_schnorr(msg, aux).serialize()
+            require(got == want, "history/signature_depends_on_earlier_calls",
+                    f"d={d:x} ops={case['ops']!r} msg#{mi} aux#{ai}: got={got.hex()} want={want.hex()}")
+        elif kind == "verify_own":
+            ok = point.verify_schnorr(msg, SchnorrSignature.parse(want))
+            require(ok is True, "history/valid_signature_rejected_after_earlier_calls")
+        else:
+            other = ec.schnorr_sign(d, case["msgs"][(mi + 1) % 3], aux_eff)
+            if case["msgs"][(mi + 1) % 3] == msg:
+                continue
+            st_, ok = attempt(lambda: point.verify_schnorr(msg, SchnorrSignature.parse(other)))
+            require(not (st_ == "ok" and ok), "history/invalid_signature_accepted_after_earlier_calls")
+    ctx.nontrivial(repeated)
+    ctx.label("same_msg_different_aux" if repeated else "no_repeat")
+
+
 MUTS = [
     "none", "flip_sig_bit", "flip_msg_bit", "other_key", "R=0", "R>=p", "R_nonresidue",
     "s=0", "s=n", "s=n+small", "s=2^256-1", "pk_not_on_curve", "pk>=p", "pk=0",
@@ -228,6 +271,9 @@ SUBS = [
     Sub("verify_exact", check_verify, strategy=verify_strategy,
         budget={"quick": 3000, "thorough": 80000},
         required=["mut:" + m for m in MUTS], nontrivial_rule="mutated triple"),
+    Sub("sign_verify_history", check_history, strategy=history_strategy, stateful=True,
+        budget={"quick": 240, "thorough": 8000}, required=["same_msg_different_aux"],
+        nontrivial_rule="history in which one key object signs the same message with different aux values"),
     Sub("tag_cache_history", check_cache, strategy=cache_strategy, stateful=True,
         budget={"quick": 4000, "thorough": 100000}, required=["repeated_tag"],
         nontrivial_rule="history in which a tag is used at least twice"),
